@@ -177,9 +177,12 @@ def collision_jobs():
                      _words=['common'], _cells=cells))
     # two *target* files with the same base name, one in the API package and one in a sub-package; no single message refers to both
     sp = P + '.sub'
-    root_common = file('acme/kw/v1/common.proto', P, messages=[message('Shared', [field('root_value', 1, 'string')])])
+    root_common = file('acme/kw/v1/common.proto', P, messages=[message('Shared', [field('root_value', 1, 'string')])],
+                       enums=[desc.enum('SharedKind', 'SHARED_KIND_UNSPECIFIED', 'BIG')])
     sub_common = file('acme/kw/v1/sub/common.proto', sp, messages=[message('Shared', [field('sub_value', 2, 'string')])])
-    msgs = [message('Alpha', [field('name', 1, 'string'), field('item', 2, Q('Shared'))]),
+    # Alpha also has a field named like the module, followed by enum-typed fields that need the (aliased) module again
+    msgs = [message('Alpha', [field('name', 1, 'string'), field('item', 2, Q('Shared')), field('common', 3, 'string'),
+                              field('kind', 4, 'enum:' + Q('SharedKind')), field('max_kind', 5, 'enum:' + Q('SharedKind'))]),
             message('Beta', [field('name', 1, 'string'), field('item', 2, f'.{sp}.Shared')])]
     main = file('acme/kw/v1/main_service.proto', P, messages=msgs, services=[service('Kw', [
         method('EchoAlpha', Q('Alpha'), Q('Alpha'), http=('post', '/v1/alpha', '*')),
